@@ -114,6 +114,85 @@ def _resolver(pa, fixed):
     return lambda v: C.expr_of(pa, walk(v))
 
 
+def _seq_len(t):
+    """length expression of a finite sequence expression: slice::iter(X) / X (a slice) / chain(A, B) / copied / cloned"""
+    from .. import linproof as LP
+    IT = r"(^|::)(chain|copied|cloned|iter|into_iter)$"
+    s_ = LP.strip(t)
+    if isinstance(s_, tuple) and s_ and isinstance(s_[0], str):
+        nm = s_[0]
+        if re.search(r"(^|::)chain$", nm) and len(s_) == 3:
+            a, b = _seq_len(s_[1]), _seq_len(s_[2])
+            return None if a is None or b is None else ("op:Add", a, b)
+        if re.search(r"(^|::)(copied|cloned)$", nm) and len(s_) == 2:
+            return _seq_len(s_[1])
+        if re.search(r"(^|::)(iter|into_iter)$", nm) and len(s_) == 2:
+            inner = LP.strip(s_[1])
+            if isinstance(inner, tuple) and inner and isinstance(inner[0], str) and re.search(IT, inner[0]):
+                return _seq_len(s_[1])
+            return ("slice::len", s_[1])
+        if nm == "array":
+            return len(s_) - 1
+        if nm == "op:Add" or nm.startswith("op:"):
+            return None
+        return ("slice::len", t)             # a slice value (call result, field) handed to chain() as IntoIterator
+    if isinstance(s_, str) and s_.startswith("top:"):
+        return ("slice::len", t)
+    return None
+
+
+def _zip_copy_of(pa, e, ex):
+    """(length of src, src expression) when the iter_mut() call `e` feeds `Iterator::zip(_, src)` whose result is consumed
+    only by copy iterations (checked by zip_copy_only); else None"""
+    lab = "top:" + str(e[4])
+    for c2 in pa.calls:
+        if re.search(r"^<std::slice::IterMut<'_, u8> as std::iter::Iterator>::zip::<", c2[1]) and len(c2[2]) == 2 and c2[2][0] == lab:
+            src = ex(c2[2])[1]
+            n = _seq_len(src)
+            if n is not None and zip_copy_only(pa, c2[4]):
+                return n, src
+    return None
+
+
+def zip_copy_only(pa, zip_label):
+    """every use of the zip object `zip_label` on this path is `next()` followed, for Some((d, s)), by the single store
+    *d = *s - and nothing else happens in those loop iterations"""
+    log = pa.log
+    heads = [i for i, x in enumerate(log) if x[0] == "loop-head"]
+    uses = [i for i, x in enumerate(log) if x[0] == "call" and re.search(r"^<std::iter::Zip<std::slice::IterMut<'_, u8>, .*> as std::iter::Iterator>::next$", x[1])]
+    if not uses:
+        return False
+    first = True
+    for i in uses:
+        x = log[i]
+        rcv = x[2][0] if x[2] else None
+        # the first next() names the zip object; later ones see it havocked by the previous next()
+        if first and not (isinstance(rcv, tuple) and rcv[-1] == "top:" + zip_label):
+            return False
+        first = False
+        nl = x[4]
+        j = i + 1
+        var = None
+        while j < len(log) and log[j][0] not in ("loop-head", "call"):
+            y = log[j]
+            if y[0] == "choice" and str(y[1]) == "variant(%s)" % nl:
+                var = y[2]
+            elif y[0] in ("write", "write-elem"):
+                if not (var == "Some" and y[0] == "write" and y[1] == "obj:%s.some.0" % nl and y[2] == () and y[3] == "top:%s.some.1.*" % nl):
+                    return False
+            j += 1
+        if var == "Some" and not (j < len(log) and log[j][0] == "loop-head"):
+            return False              # something else runs in the iteration after the store
+        if var is None:
+            return False
+    # every loop iteration of the path belongs to such a next()
+    for h in heads:
+        nxt = next((x for x in log[h + 1:] if x[0] in ("call", "write", "write-elem", "loop-head")), None)
+        if nxt is None or not (nxt[0] == "call" and re.search(r"^<std::iter::Zip<std::slice::IterMut<'_, u8>, .*> as std::iter::Iterator>::next$", nxt[1])):
+            return False
+    return True
+
+
 def intervals(prog, pa, base, fixed=None):
     """[(lo, hi, what[, label])] written on this path, plus problems.  The output slice and its sub-slices are followed
     by *address* (the `&mut` paths E2 logs with every call), which is stable across havoc of the slice contents."""
@@ -157,6 +236,31 @@ def intervals(prog, pa, base, fixed=None):
                 done = True
         if done:
             continue
+        if ITER_MUT.search(e[1]):
+            # `out.iter_mut().zip(src)` consumed by a copy loop (`for (d, s) in .. { *d = *s }`, recognised by
+            # zip_copy_loops): element i of the view receives item i of src, for i < min(len view, len src); the interval is
+            # [lo, lo + len src) when a bounds check on the path shows the view to be that long
+            zc = _zip_copy_of(pa, e, ex)
+            if zc is not None:
+                n_src, src = zc
+                end = ("op:Add", lo, n_src) if lo != 0 else n_src
+                need = lin(end)
+                proved = False
+                for c2 in pa.calls:
+                    if re.search(r"check_buffer_boundaries$", c2[1]) and pa.choice(r"^variant\(%s\)$" % re.escape(c2[4])) == "Ok":
+                        a2 = ex(c2[2])
+                        if len(a2) == 2 and (a2[0] == "top:" + str(tgt[0]) or str(tgt[0]).endswith(str(a2[0]).replace("top:", ""))):
+                            d_ = dict(lin(a2[1]))
+                            for k_, v_ in need.items():
+                                d_[k_] = d_.get(k_, 0) - v_
+                            # checked size - needed size is a sum of lengths with non-negative coefficients
+                            if all(v_ >= 0 for v_ in d_.values()) and all(k_ == 1 or "len" in repr(k_) for k_, v_ in d_.items() if v_ != 0):
+                                proved = True
+                if proved:
+                    out.append((lo, end, "zip-copy loop", None, ("seq", src)))
+                else:
+                    probs.append("iter_mut().zip(src) copy loop: no bounds check shows the output to hold len(src) = %s bytes" % show(n_src)[:60])
+                continue
         if WHOLE.search(e[1]) or ITER_MUT.search(e[1]):
             if hi is None:
                 probs.append("%s on a slice of unknown extent" % nm)
@@ -306,8 +410,10 @@ def r14_5_write_coverage(ctx, prog, rule="R14.5"):
             bad.append("exploration bound hit")
         for pa in paths:
             if any(e[0] == "loop-head" for e in pa.log):
-                bad.append("a loop writes the output (not chained): add a dedicated rule")
-                break
+                zips = [e[4] for e in pa.calls if re.search(r"^<std::slice::IterMut<'_, u8> as std::iter::Iterator>::zip::<", e[1])]
+                if not (len(zips) == 1 and zip_copy_only(pa, zips[0])):
+                    bad.append("a loop writes the output (not chained): add a dedicated rule")
+                    break
             r = C.expr_of(pa, pa.ret)
             if isinstance(r, tuple) and r[0] == "Result::Err":
                 continue
